@@ -287,5 +287,30 @@ def r14_6(ctx):
     ctx.findings[:] = [x for x in ctx.findings if not (x.rule == ctx._rule and x.construct in dropped)]
 
 
+def r14_7(ctx):
+    """R14.7 protocol version 1 folds visibility into the values channel: the reply overwrites the value of every option
+    that *became invisible* with null - so it must equally restore the value of every option that *became visible*, even
+    when the value itself did not change (the values snapshots are then equal and diff() reports nothing)."""
+    repo = ctx.repo
+    f = repo.func(f"{KS}:run_server")
+    ctx.analysed(f.qual)
+    arms = [n for n in ast.walk(f.node) if isinstance(n, ast.If) and ast.unparse(n.test).replace('"', "'") == "req['version'] == 1"]
+    if not arms:
+        raise AnchorError("run_server: no `req['version'] == 1` arm")
+    arm = arms[0]
+    nulls = [n for st in arm.body for n in ast.walk(st) if isinstance(n, ast.Assign) and ast.unparse(n.targets[0]).startswith("values_diff[")
+             and isinstance(n.value, ast.Constant) and n.value.value is None]
+    restores = [n for st in arm.body for n in ast.walk(st) if isinstance(n, ast.Assign) and ast.unparse(n.targets[0]).startswith("values_diff[")
+                and ast.unparse(n.value).startswith("after[")]
+    construct = "run_server/v1: values nulled on becoming invisible are restored on becoming visible"
+    if not nulls:
+        ctx.ok(construct + " (v1 no longer nulls invisible items)", f.loc(arm), nontrivial=False)
+    elif restores:
+        ctx.ok(construct, f.loc(restores[0]))
+    else:
+        ctx.bad(construct, "the v1 reply sets `values[k] = null` for options that turned invisible but never re-sends the value when they turn visible "
+                "again with an unchanged value: the client keeps null for a visible option", f.loc(nulls[0]))
+
+
 def rules():
-    return [("R14.1", r14_1, 9), ("R14.2", r14_2, 5), ("R14.3", r14_3, 3), ("R14.4", r14_4, 20), ("R14.5", r14_5, 10), ("R14.6", r14_6, 5)]
+    return [("R14.1", r14_1, 9), ("R14.2", r14_2, 5), ("R14.3", r14_3, 3), ("R14.4", r14_4, 20), ("R14.5", r14_5, 10), ("R14.6", r14_6, 5), ("R14.7", r14_7, 1)]
